@@ -149,8 +149,12 @@ CLAIMED["C12"] = {
              "block orders above the arena size take such a path (the limit is compared with the arena's real size from the record layout); "
              "rs_calloc computes nmemb * size only when, in every model of its guard, the divisor is zero or the quotient test excludes overflow, "
              "zeroes exactly the requested length at the returned pointer on the non-NULL edge; rs_realloc copies min(requested, original) into "
-             "the new block before freeing the old one and frees it only when the new allocation succeeded; rs_free(NULL) touches nothing. NOT "
-             "decided: that blocks are inside allocator memory, aligned, disjoint and stable (buddy-tree arithmetic over operation histories)."),
+             "the new block before freeing the old one and frees it only when the new allocation succeeded; rs_free(NULL) touches nothing; the "
+             "buddy tree's bookkeeping on small order values: every node starts with order total - depth, the search goes right exactly when the "
+             "left subtree cannot hold the request, every ancestor gets the larger of its children's values, freeing sets a parent to order + 1 "
+             "only when both halves are wholly free, and the size reported for a freed block is 1 << its order. NOT "
+             "decided: that blocks are inside allocator memory, aligned, disjoint and stable over whole operation histories (the rules above are "
+             "the local steps such an argument would use, not the argument)."),
     "note": TRUST,
 }
 CLAIMED["C18"] = {
@@ -197,7 +201,10 @@ CLAIMED["C14"] = {
              "the routing macro of its level whose two search loops are the complementary thresholds (down while >=, up while <), the upper "
              "bound being the same expression for partition id + 1, so ranges are contiguous, disjoint and cover; the queue index, the "
              "local/remote decision with its destination rank and the remote anti-message destination are the routing macros applied to the "
-             "message destination; lp_init and lp_fini iterate exactly [lid_thread_first, lid_thread_end) running the per-LP init/fini once. NOT "
+             "message destination; lp_init and lp_fini iterate exactly [lid_thread_first, lid_thread_end) running the per-LP init/fini once; both "
+             "ends of a partition are searched with the same (parts, start, total); a routing macro of another shape is evaluated on small "
+             "numbers and a value outside 0..parts-1, or an end sentinel below parts, is a violation; the LP table holds n_lps_node entries and "
+             "is shifted by the first hosted id after allocation and back before release. NOT "
              "decided: 'no idle thread when LPs >= threads' and overflow for identifiers near 2^64."),
     "note": TRUST + " Counts (n_nodes, n_threads, lps, n_lps_node) are assumed positive; lps == 0 is confirmed rejected by RootsimInit.",
 }
